@@ -330,6 +330,17 @@ def malformed(sink):
         'tree_flatten_one_level': lambda t: optree.tree_flatten_one_level(t, namespace=ns),
         'tree_broadcast_common': lambda t: optree.tree_broadcast_common(t, t, namespace=ns),
         'prefix_errors': lambda t: optree.prefix_errors(t, t, namespace=ns),
+        'tree_leaves': lambda t: optree.tree_leaves(t, namespace=ns),
+        'tree_structure': lambda t: optree.tree_structure(t, namespace=ns),
+        'tree_paths': lambda t: optree.tree_paths(t, namespace=ns),
+        'tree_accessors': lambda t: optree.tree_accessors(t, namespace=ns),
+        'tree_flatten_with_accessor': lambda t: optree.tree_flatten_with_accessor(t, namespace=ns),
+        'tree_map_with_path': lambda t: optree.tree_map_with_path(lambda p, x: x, t, namespace=ns),
+        # (operations that never call the flatten function of the node - tree_is_leaf, all_leaves, a rest under a leaf position - are not listed)
+        'tree_map/same-rest': lambda t: optree.tree_map(lambda x, y: x, t, t, namespace=ns),
+        'tree_transpose_map': lambda t: optree.tree_transpose_map(lambda x: t, [1, 2], namespace=ns),
+        'tree_broadcast_prefix': lambda t: optree.tree_broadcast_prefix([t], [t], namespace=ns),
+        'tree_reduce': lambda t: optree.tree_reduce(lambda a, b: a, t, None, namespace=ns),
     }
     for cls in U.BAD_CLASSES:
         if cls is U.BadRaises:
@@ -349,16 +360,27 @@ def malformed(sink):
                 ok = out in ('RuntimeError', 'ValueError', 'TypeError')
                 sink.check(ok, f'malformed/{cls.__name__}/{name}', 'malformed flatten returns raise RuntimeError / ValueError / TypeError, never an internal error', dict(cls=cls.__name__, call=name, wrap=wrap), out)
                 sink.count('malformed-probes')
-    for n_leaves, label in ((2, 'too-few'), (4, 'too-many')):
-        for name, fn in (('unflatten', lambda xs: spec_ok.unflatten(xs)), ('tree_unflatten', lambda xs: optree.tree_unflatten(spec_ok, xs)),
-                         ('traverse', lambda xs: spec_ok.traverse(xs)), ('walk', lambda xs: spec_ok.walk(xs))):
-            try:
-                fn(list(range(n_leaves)))
-                out = 'returned'
-            except Exception as e:  # noqa: BLE001
-                out = type(e).__name__
-            sink.check(out == 'ValueError', f'leaf-count/{label}/{name}', 'a wrong leaf count raises ValueError', dict(call=name, leaves=n_leaves), out)
-            sink.count('malformed-probes')
+    class Lying(list):
+        def __init__(self, xs, claim):
+            super().__init__(xs)
+            self.claim = claim
+
+        def __len__(self):
+            return self.claim
+
+    for n_leaves, label in ((2, 'too-few'), (4, 'too-many'), (0, 'none')):
+        for shape, mk in (('list', lambda n: list(range(n))), ('tuple', lambda n: tuple(range(n))), ('generator', lambda n: (i for i in range(n))), ('iterator', lambda n: iter(range(n))),
+                          ('lying-len', lambda n: Lying(range(n), 3)), ('deque', lambda n: deque(range(n)))):
+            for name, fn in (('unflatten', lambda xs: spec_ok.unflatten(xs)), ('tree_unflatten', lambda xs: optree.tree_unflatten(spec_ok, xs)),
+                             ('traverse', lambda xs: spec_ok.traverse(xs)), ('walk', lambda xs: spec_ok.walk(xs)),
+                             ('traverse/f', lambda xs: spec_ok.traverse(xs, lambda n_: n_, lambda x: x))):
+                try:
+                    fn(mk(n_leaves))
+                    out = 'returned'
+                except Exception as e:  # noqa: BLE001
+                    out = type(e).__name__
+                sink.check(out == 'ValueError', f'leaf-count/{label}/{name}', 'a wrong leaf count raises ValueError', dict(call=name, leaves=n_leaves, given_as=shape), out)
+                sink.count('malformed-probes')
 
 
 def shards(tier, seed):
